@@ -78,6 +78,26 @@ impl std::fmt::Display for CanonicalQuery {
     }
 }
 
+// a minimum amount is usable only once every entry carries a constant number
+// and the entries of one class add up inside the range of an amount
+fn canonical_min_amount(expr: &tir::Expression) -> Result<CanonicalAssets, Error> {
+    let not_assets = || Error::ExpectedData("assets".to_string(), expr.clone());
+
+    let mut total = CanonicalAssets::empty();
+
+    for asset in data_or_bail!(expr, assets)? {
+        if !matches!(asset.amount, tir::Expression::Number(_)) {
+            return Err(not_assets());
+        }
+
+        total = total
+            .checked_add(CanonicalAssets::from(asset.clone()))
+            .ok_or_else(not_assets)?;
+    }
+
+    Ok(total)
+}
+
 impl TryFrom<tir::InputQuery> for CanonicalQuery {
     type Error = Error;
 
@@ -92,9 +112,8 @@ impl TryFrom<tir::InputQuery> for CanonicalQuery {
         let min_amount = query
             .min_amount
             .as_option()
-            .map(|x| data_or_bail!(x, assets))
-            .transpose()?
-            .map(|x| CanonicalAssets::from(Vec::from(x)));
+            .map(canonical_min_amount)
+            .transpose()?;
 
         let refs = query
             .r#ref
